@@ -227,6 +227,38 @@ def run(ctx):
                   if rv[0] == "agg" and rv[1]["k"] == "adt" and rv[1]["adt"] == PID)
         ctx.ob("R6", "%s|id list" % z.short, ids == ZERO_RTT, z.where(),
                "ids compared for 0-RTT: %s; RFC 9000 §7.4.1 + RFC 9221: %s" % (sorted(ids), sorted(ZERO_RTT)))
+        # direction of the comparison: remembered (self) <= new (argument)
+        dirs = []
+        for c in prog.with_closures(z):
+            ups = {u[0]: u[1] for u in c.get("upvars", [])}
+            for (i, j, p_, rv, line) in c.assigns():
+                if rv[0] == "bin" and rv[1] in ("Le", "Ge", "Lt", "Gt"):
+                    continue
+            for i, t in c.calls():
+                if re.search(r"cmp::PartialOrd>?::(le|ge|lt|gt)$", callee(t)) or re.search(r"PartialOrd::(le|ge|lt|gt)$", callee_orig(t) or ""):
+                    def side(o):
+                        caps = c.get("captures", [])
+                        names = set()
+                        ops = [o]
+                        # projection-sensitive step through `(a, b)` tuples: `_t.k...` -> k-th operand of the aggregate
+                        for pl in deep_places(c, o, 2):
+                            if len(pl) >= 2 and isinstance(pl[1], str) and pl[1][1:].split(":")[0].isdigit():
+                                k = int(pl[1][1:].split(":")[0])
+                                for (bb_, jj_, rv_) in c.defs_of(pl[0]):
+                                    if jj_ != "term" and rv_[0] == "agg" and rv_[1]["k"] == "tuple" and k < len(rv_[2]):
+                                        ops = [rv_[2][k]]
+                        for oo in ops:
+                            for pl in deep_places(c, oo, 6):
+                                if pl[0] == 1:
+                                    idx = [e[1:].split(":")[0] for e in pl[1:] if isinstance(e, str) and e.startswith(".")]
+                                    if idx and idx[0].isdigit() and int(idx[0]) < len(caps):
+                                        names.add(caps[int(idx[0])]["var"])
+                        return names
+                    dirs.append((callee(t).split("::")[-1], side(t["args"][0]), side(t["args"][1])))
+        ok = any(op == "le" and "self" in a and "server_params" in b_ and "self" not in b_ for (op, a, b_) in dirs) or \
+            any(op == "ge" and "server_params" in a and "self" in b_ and "server_params" not in b_ for (op, a, b_) in dirs)
+        ctx.ob("R6", "%s|remembered <= new" % z.short, ok, z.where(),
+               "comparison(s): %s — 0-RTT is honoured only when every remembered limit is <= the server's new one" % [(op, sorted(a), sorted(b_)) for op, a, b_ in dirs])
         vt = ctx.anchor("R6", PID + "::value_type")
         dv = ctx.anchor("R6", PID + "::default_value")
         if vt and dv:
